@@ -3,7 +3,7 @@
       <graph> <nodes> <edges flat> status n' { old <Out(i)> <EdgeMap(i,.) flat> }^n' 1 <graph> <nodes> <edges flat>
    (pure = 1 and the three arguments after the call are the arguments), the graph is well-formed, and
      - in general: the observation is what the model of the code (Model/Subgraph.v) returns: status 2
-       (panic) when the model panics, else status 0 and the observed rows (NodeMap, Out, EdgeMap) are,
+       (panic) and no rows when the model panics, else status 0 and the observed rows (NodeMap, Out, EdgeMap) are,
        field for field, the rows of the model's result;
      - SubgraphKeep on a WELL-FORMED request (no negative number, keep_wf: distinct existing nodes, every
        requested edge joins kept nodes): status 0 and the rows are the rows of a subgraph s that satisfies
@@ -50,17 +50,18 @@ Proof.
 Qed.
 
 Definition sg_matches (expected : option subgraph) (status : Z) (obs : list sg_obs) : Prop :=
-  match expected with None => status = 2 | Some s => status = 0 /\ Forall2 sg_row s obs end.
+  match expected with None => status = 2 /\ obs = [] | Some s => status = 0 /\ Forall2 sg_row s obs end.
 
-Lemma sg_verdict_sound : forall op bits expected status obs pure same c tag pos diag,
-  sg_verdict op bits expected status obs pure same = verdict c tag pos diag -> c = 0 \/ c = 1 ->
+Lemma sg_verdict_sound : forall op bits expected status obs pure same c v,
+  sg_verdict op bits expected status obs pure same = c :: v -> c = 0 \/ c = 1 ->
   c = 0 /\ pure = 1 /\ same = true /\ sg_matches expected status obs.
 Proof.
-  intros op bits expected status obs pure same c tag pos diag H Hc. unfold sg_verdict in H. cbv zeta in H.
+  intros op bits expected status obs pure same c v H Hc. unfold sg_verdict in H. cbv zeta in H.
   apply ok_or_mismatch in H; [|exact Hc]. destruct H as [W ->].
   destruct expected as [s|]; ff_split W;
     repeat match goal with H : (_ =? _) = true |- _ => apply Z.eqb_eq in H end; subst; cbn; repeat split; auto.
-  apply sg_eqb_spec. assumption.
+  - apply sg_eqb_spec. assumption.
+  - match goal with H : (length _ =? 0)%nat = true |- _ => apply Nat.eqb_eq in H; apply length_zero_iff_nil; exact H end.
 Qed.
 
 (* ====================================================================== op 7: SubgraphKeep *)
@@ -88,10 +89,10 @@ Definition keep_case_ok (rest : list Z) : Prop :=
     (* a node outside the graph or listed twice: the call panics *)
     (neg = false -> (exists v, In v nodesN /\ (g_n g <= v)%N) \/ ~ NoDup nodesN -> status = 2).
 
-Theorem check_keep_sound : forall l c tag pos diag r,
-  check_keep l = Some (verdict c tag pos diag, r) -> c = 0 \/ c = 1 -> c = 0 /\ r = [] /\ keep_case_ok l.
+Theorem check_keep_sound : forall l c v r,
+  check_keep l = Some (c :: v, r) -> c = 0 \/ c = 1 -> c = 0 /\ r = [] /\ keep_case_ok l.
 Proof.
-  intros l c tag pos diag r H Hc. unfold check_keep in H. pinv H. subst.
+  intros l c v r H Hc. unfold check_keep in H. pinv H. subst.
   destruct (g_wfb a) eqn:Ewf; cbn [negb] in Ev; [|rejected Ev]. apply g_wfb_spec in Ewf.
   destruct (pairs_of a1) as [edges|] eqn:EP; [|rejected Ev]. apply pairs_of_some in EP.
   cbv zeta in Ev. apply sg_verdict_sound in Ev; [|exact Hc]. destruct Ev as (-> & -> & Same & M).
@@ -104,7 +105,7 @@ Proof.
   - intros Hneg Hwf. rewrite Hneg in M.
     destruct (subgraph_keep_spec _ _ _ Hwf) as (s & Es & Hs). rewrite Es in M. destruct M as [M1 M2].
     split; [exact M1|]. exists s. split; [exact M2|exact Hs].
-  - intros Hneg Hbad. rewrite Hneg in M. rewrite (subgraph_keep_panics _ _ _ Hbad) in M. exact M.
+  - intros Hneg Hbad. rewrite Hneg in M. rewrite (subgraph_keep_panics _ _ _ Hbad) in M. apply M.
 Qed.
 
 (* ====================================================================== op 8: SubgraphRemove *)
@@ -132,10 +133,10 @@ Definition remove_case_ok (rest : list Z) : Prop :=
        status = 0 /\ exists s, Forall2 sg_row s obs /\ remove_spec_concl g nodes edges s) /\
     ((length g < zdistinct nodes)%nat -> status = 2).
 
-Theorem check_remove_sound : forall l c tag pos diag r,
-  check_remove l = Some (verdict c tag pos diag, r) -> c = 0 \/ c = 1 -> c = 0 /\ r = [] /\ remove_case_ok l.
+Theorem check_remove_sound : forall l c v r,
+  check_remove l = Some (c :: v, r) -> c = 0 \/ c = 1 -> c = 0 /\ r = [] /\ remove_case_ok l.
 Proof.
-  intros l c tag pos diag r H Hc. unfold check_remove in H. pinv H. subst.
+  intros l c v r H Hc. unfold check_remove in H. pinv H. subst.
   destruct (g_wfb a) eqn:Ewf; cbn [negb] in Ev; [|rejected Ev]. apply g_wfb_spec in Ewf.
   destruct (pairs_of a1) as [edges|] eqn:EP; [|rejected Ev]. apply pairs_of_some in EP.
   cbv zeta in Ev. apply sg_verdict_sound in Ev; [|exact Hc]. destruct Ev as (-> & -> & Same & M).
@@ -147,5 +148,5 @@ Proof.
   split; [exact Ewf|]. split; [exact M|]. split.
   - intro Hd. destruct (subgraph_remove_spec _ _ edges Ewf Hd) as (s & Es & Hs). rewrite Es in M. destruct M as [M1 M2].
     split; [exact M1|]. exists s. split; [exact M2|exact Hs].
-  - intro Hd. rewrite (subgraph_remove_panics _ _ edges Hd) in M. exact M.
+  - intro Hd. rewrite (subgraph_remove_panics _ _ edges Hd) in M. apply M.
 Qed.
